@@ -1,7 +1,8 @@
 (* PV.C12.Refuted — counter-models for the guards that still exist because the CODE fails (open
    findings C12-DERIVATIVES-TEXT, C12-JSON-INTKEY, C12-EQ-DOSING-ORDER, C12-SREPR-DISTRIBUTES), and
    regression Examples of the repaired behaviour for the findings fixed in /repo (C12-HASH-ORDER
-   ddb8814, C12-HASH-DEPVAR-ORDER eb87ce1, C12-JSON-TUPLE cee2988, C12-CATEGORIES-MAPPING e582408, C12-GENERIC-READ 30e26dc, and
+   ddb8814, C12-HASH-DEPVAR-ORDER eb87ce1, C12-GENERIC-VALUE-TYPE 7115d86,
+   C12-MODELFIT-GRADIENTS-DEFAULT 36ee5f2, C12-JSON-TUPLE cee2988, C12-CATEGORIES-MAPPING e582408, C12-GENERIC-READ 30e26dc, and
    C05-EQ-RAISES-NO-DOSE 876afb2): their former witnesses, now satisfying the property.
    All witnesses live over the [strG] engine (symbolic leaves are their srepr texts). *)
 From Coq Require Import QArith ZArith List Bool Arith String.
@@ -270,31 +271,30 @@ Theorem results_unsupported_refuted :
   jenc (res_of FOt) = None.
 Proof. repeat split; try (eexists; eexists; repeat split; vm_compute; reflexivity). Qed.
 
-(* ==== open: C12-GENERIC-VALUE-TYPE — convert_model(m, 'generic') does not carry value_type over: a
-   LIKELIHOOD model becomes a PREDICTION model, and its generic code parses back to that ==== *)
+(* ==== fixed: C12-GENERIC-VALUE-TYPE (7115d86) — convert_model carries value_type over: a LIKELIHOOD
+   model converts to an equal model and its generic code parses back to it ==== *)
 Definition M_likelihood : model strG :=
   mkModel strG "m" "" [] no_rvs [] [] no_di "LIKELIHOOD" [("Symbol('Y')", 1%Z)] [("Symbol('Y')", "Symbol('Y')")] None.
-Theorem generic_value_type_refuted :
-  model_eq strG (generic_convert strG M_likelihood) M_likelihood = false /\
+Example generic_value_type_fixed :
+  model_eq strG (generic_convert strG M_likelihood) M_likelihood = true /\
   forall (dumps : pyv -> string) (loads : string -> option pyv) version,
     loads (dumps (generic_code_dict strG version (generic_convert strG M_likelihood))) =
       Some (normalise (generic_code_dict strG version (generic_convert strG M_likelihood))) ->
-    exists y, generic_roundtrip strG dumps loads version M_likelihood = Some y /\ model_eq strG y M_likelihood = false.
+    generic_roundtrip strG dumps loads version M_likelihood = Some (strip strG M_likelihood) /\
+    model_eq strG (strip strG M_likelihood) M_likelihood = true.
 Proof.
-  split; [vm_compute; reflexivity|]. intros dumps loads version L.
-  eexists. split.
-  - apply (generic_image strG strG_ok dumps loads version M_likelihood L); [reflexivity | | discriminate].
-    intros kv [E|[]]. subst. reflexivity.
-  - vm_compute. reflexivity.
+  split; [vm_compute; reflexivity|]. intros dumps loads version L. split; [|vm_compute; reflexivity].
+  apply (generic_code_roundtrip_lemma strG strG_ok dumps loads version M_likelihood L); try reflexivity.
+  - intros kv [E|[]]. subst. reflexivity.
+  - intros x Hx. discriminate.
 Qed.
 
-(* ==== open: C12-MODELFIT-GRADIENTS-DEFAULT — ModelfitResults.gradients_iterations defaults to the
-   tuple (None,) (a stray comma): every ModelfitResults that does not set it comes back from
-   to_json / read_results with the list [None] there ==== *)
+(* ==== fixed: C12-MODELFIT-GRADIENTS-DEFAULT (36ee5f2) — gradients_iterations defaults to None: a
+   ModelfitResults that leaves it unset is a supported results object and comes back unchanged ==== *)
 Definition mfr_default : results jtbl jtbl :=
   Res "pharmpy.workflows.results" "ModelfitResults"
-      [("__version__", FPl (PStr "1.2.0")); ("ofv", FPl (PFloat (FFin (3 # 2)))); ("gradients_iterations", FPl (PTuple [PNone]))].
-Theorem results_gradients_default_refuted :
-  gradients_default mfr_default = true /\ results_supported jtbl jtbl mfr_default = false /\
-  exists p r', jenc mfr_default = Some p /\ jdec (normalise p) = Some r' /\ results_same r' mfr_default = false.
-Proof. split; [reflexivity|]. split; [reflexivity|]. eexists. eexists. repeat split; vm_compute; reflexivity. Qed.
+      [("__version__", FPl (PStr "1.2.0")); ("ofv", FPl (PFloat (FFin (3 # 2)))); ("gradients_iterations", FPl PNone)].
+Example results_gradients_default_fixed :
+  results_supported jtbl jtbl mfr_default = true /\
+  exists p r', jenc mfr_default = Some p /\ jdec (normalise p) = Some r' /\ results_same r' mfr_default = true.
+Proof. split; [reflexivity|]. eexists. eexists. repeat split; vm_compute; reflexivity. Qed.
